@@ -161,15 +161,29 @@ def _count_kinds(by_name):
     return out
 
 
+_native_cache: dict = {}
+
+
 def try_native_replay(prop, e, replay):
-    """Replay hooks live in /verif/replayers/<prop>.py (run under /venv/bin/python on the real code)."""
+    """Failing-input search on the real code: /verif/replayers/<prop>.py, run under /venv/bin/python with
+    PYTHONPATH pointing at the src/ of the very tree the obligations were generated from.  One search per
+    (property, class) and run: the history it finds is a failing input for the property on this tree and is
+    attached to every refuted obligation of that class."""
+    from .core import REPO
+
     script = os.path.join(ROOT, "replayers", f"{prop}.py")
     if not os.path.exists(script):
-        return {"reproduced": False, "reason": "no native replayer for this obligation; solver model attached"}
+        return {"reproduced": False, "reason": "no native replayer for this property; solver model attached"}
+    key = (prop, e["name"].split(".")[0].split("/")[0])
+    if key in _native_cache:
+        return _native_cache[key]
     try:
-        p = subprocess.run(["/venv/bin/python", script, "--obligation", e["name"]], input=json.dumps(replay, default=str), capture_output=True, text=True, timeout=120)
+        env = dict(os.environ, PYTHONPATH=os.path.join(REPO, "src"), SEGVC_REPO=REPO)
+        p = subprocess.run(["/venv/bin/python", script, "--obligation", e["name"]], input=json.dumps(replay, default=str), capture_output=True, text=True, timeout=180, env=env)
         out = p.stdout.strip().splitlines()
         last = out[-1] if out else ""
-        return {"reproduced": "reproduced=True" in last, "output": p.stdout[-2000:], "stderr": p.stderr[-1000:]}
+        r = {"reproduced": last.startswith("reproduced=True"), "output": p.stdout[-3000:], "stderr": p.stderr[-1000:]}
     except Exception as ex:  # pragma: no cover
-        return {"reproduced": False, "reason": f"replayer failed: {ex}"}
+        r = {"reproduced": False, "reason": f"replayer failed: {ex}"}
+    _native_cache[key] = r
+    return r
